@@ -4,8 +4,9 @@ CHECK = {
              "transporting its events, run one at a time under a cooperative scheduler; scheduling points = "
              "CELERITAS_VERIF hooks (before every begin-run/step action, around the lazy StreamStore "
              "allocation, inside host atomic read-modify-writes; per-thread budgets on the hot ones) and "
-             "every pthread mutex lock/unlock (interposed); ALL schedules with <= B preemptions (quick 1, "
-             "thorough 2) for every assignment of 3 events to the streams that uses >= 2 streams, x "
+             "every pthread mutex lock/unlock (interposed); ALL schedules with <= B preemptions (quick: B=1; "
+             "thorough: B=2 with the quick budgets for the two-thread roots, and B=1 with doubled budgets for "
+             "all roots) for every assignment of 3 events to the streams that uses >= 2 streams, x "
              "six variants {rec: recorder+diagnostics; calo: SimpleCalo+diagnostics with charge-partitioned "
              "initialisation; recsort: recorder with track re-indexing by particle type; recsortact: "
              "re-indexing by along-step and step-limit action; recfield: uniform-field + Urban-MSC "
@@ -26,7 +27,8 @@ CHECK = {
         "memory orderings weaker than sequential consistency are not modelled",
     ],
     "bounds": {"quick": {"preemptions": 1, "tsan_repetitions": 2},
-               "thorough": {"preemptions": 2, "tsan_repetitions": 10}},
+               "thorough": {"preemptions": "2 (T=2, small budgets) + 1 (T=2,3, doubled budgets)",
+                            "tsan_repetitions": 10}},
     "parts": [
         {"name": "sched", "harness": "c07_sched", "flavour": "rel",
          "shards": {"quick": 16, "thorough": 16}, "deadline": {"quick": 100, "thorough": 1200},
